@@ -19,6 +19,9 @@ MODULES = {
 }
 
 
+MAX_REPLAYS = 2  # a native replay costs 2-3 minutes (two profiles)
+
+
 def slug(s):
     return re.sub(r"[^A-Za-z0-9]+", "_", s).strip("_")[:60]
 
@@ -42,6 +45,7 @@ def k_check(prop, outcome, items, quick_timeout=240, thorough_timeout=1200, sess
     t0 = time.time()
     run = session.run(list(full.keys()), timeout_s=timeout, jobs=jobs)
     samples = []
+    replays_done = 0
     n_pass = n_nontrivial = 0
     solver_s = symex_s = 0.0
     vccs = 0
@@ -82,7 +86,12 @@ def k_check(prop, outcome, items, quick_timeout=240, thorough_timeout=1200, sess
             if known is not None:
                 outcome.violation(key, "; ".join(descs), None)
                 entry["known_finding"] = key
+            elif replays_done >= MAX_REPLAYS:
+                entry["replay"] = "not replayed (replay budget of %d per run used)" % MAX_REPLAYS
+                outcome.inconc("harness %s failed under CBMC (%s); not replayed natively because %d other counterexamples of this run were "
+                               "already replayed" % (short, "; ".join(descs[:2]), MAX_REPLAYS))
             else:
+                replays_done += 1
                 rep, path, note = session.replay(h, MODULES[it["module"]][1], prop, descs)
                 entry["replay"] = note
                 only_memsafety = all(f["category"] not in ("assertion",) for f in res["failed"])
